@@ -139,7 +139,13 @@ End == \/ /\ pc = "evaluated" /\ verdict = "acc"
 Idle == /\ pc = "ended" /\ pc' = "idle"
         /\ UNCHANGED <<setup, s, pre, cur, subsv, verdict, trials, fresh, accIns, accDel, nexch0>>
 
-Next == (\E n \in DOMAIN setup.moves : Yield(n)) \/ Call \/ (\E v \in {"acc", "rej"} : Eval(v)) \/ End \/ Idle
+\* the run is stopped between two trials and continued from its restart dictionary with a fresh calculator
+Restart == /\ pc = "idle" /\ s.lastRes # NoCfg /\ setup.ctx # "base"
+           /\ s' = Restarted(s)
+           /\ UNCHANGED <<setup, pre, pc, cur, subsv, verdict, trials, fresh, accIns, accDel, nexch0>>
+
+Trial == (\E n \in DOMAIN setup.moves : Yield(n)) \/ Call \/ (\E v \in {"acc", "rej"} : Eval(v)) \/ End \/ Idle
+Next == Restart \/ Trial
 Spec == Init /\ [][Next]_vars
 
 (* ---- properties ------------------------------------------------------------------------ *)
